@@ -72,39 +72,66 @@ def rule_position(ctx, f, b):
         return
     head = heads[0]
     body = loops[head]
-    # the running position: a u32 local that is assigned `pos + x` inside the loop
-    adds = []
+    # the running position: a u32 local that is the left operand of `pos + x` / `pos.checked_add(x)` inside the loop
+    adders = {}     # (kind, bb) -> (lhs operand, rhs operand)
     for i, j, s in F.stmts(b):
         if i in body and s[0] == "assign" and s[2][0] == "binop" and s[2][1].startswith("Add"):
-            adds.append((i, s))
+            adders[("binop", i)] = (s[2][2], s[2][3])
+    for bi, t in F.calls(b):
+        if bi in body and last_seg(F.callee_name(t)) in ("checked_add", "saturating_add") and len(t["args"]) == 2:
+            adders[("call", bi)] = (t["args"][0], t["args"][1])
     pos_locals = set()
-    for i, s in adds:
-        a = F.op_local(s[2][2])
+    for (k, i), (lhs, rhs) in adders.items():
+        a = F.op_local(lhs)
         if a is not None and b["locals"][a]["s"] == "u32":
             pos_locals.add(a)
+            # a copy of the running position made for the call
+            for x in fl.origins(a, passthrough=()):
+                pass
+    # locals that hold the running position: u32 locals copied into an adder's left operand
+    for (k, i), (lhs, rhs) in list(adders.items()):
+        a = F.op_local(lhs)
+        if a is None:
+            continue
+        for d in fl.defs.get(a, []):
+            if d[0] == "assign" and d[2][0] == "use":
+                src = F.op_local(d[2][1])
+                if src is not None and b["locals"][src]["s"] == "u32":
+                    pos_locals.add(src)
     incr_blocks = set()
     kinds = set()
     for i, j, s in F.stmts(b):
-        # `pos = move (_x.0)` after the checked add
+        # `pos = move (_x.0)` after the checked add / `pos = end` after `pos.checked_add(count)?`
         if i in body and s[0] == "assign" and len(s[1]) == 1 and s[1][0] in pos_locals and s[2][0] == "use":
             src = F.op_place(s[2][1])
-            if src is not None:
-                for a in fl.origins(src[0], passthrough=()):
-                    if a[0] == "binop" and a[1].startswith("Add"):
-                        incr_blocks.add(i)
-                        c = F.const_int(a[3][3])
-                        if c == 1:
-                            kinds.add("one")
-                        else:
-                            fs = set()
-                            l = F.op_local(a[3][3])
-                            pl = F.op_place(a[3][3])
-                            if pl is not None:
-                                Flow._note_fields(pl, fs)
-                            if l is not None:
-                                fl.origins(l, fields=fs, passthrough=())
-                            if "count" in fs:
-                                kinds.add("count")
+            if src is None:
+                continue
+            for a in fl.origins(src[0]):
+                key = None
+                if a[0] == "binop" and a[1].startswith("Add"):
+                    key = ("binop", a[2])
+                elif a[0] == "call" and last_seg(a[1]) in ("checked_add", "saturating_add"):
+                    key = ("call", a[2])
+                if key is None or key not in adders:
+                    continue
+                lhs, rhs = adders[key]
+                ll = F.op_local(lhs)
+                if ll is None or not (ll in pos_locals):
+                    continue
+                incr_blocks.add(i)
+                c = F.const_int(rhs)
+                if c == 1:
+                    kinds.add("one")
+                else:
+                    fs = set()
+                    l = F.op_local(rhs)
+                    pl = F.op_place(rhs)
+                    if pl is not None:
+                        Flow._note_fields(pl, fs)
+                    if l is not None:
+                        fl.origins(l, fields=fs, passthrough=())
+                    if "count" in fs:
+                        kinds.add("count")
     # every back edge source is reached from the Ok(get) point only through an increment
     backs = [a for a, h in cfg.back_edges() if h == head]
     start = b["blocks"][gets[0]]["term"]["target"]
